@@ -271,6 +271,30 @@ def run(ctx):
         cases.append({'ids': ids, 'version': 33, 'edition': 4, 'nsub': rng.choice([1, 2]), 'compressed': comp,
                       'forced': '31031=' + '.'.join(['0'] * nm), 'seed': rng.randrange(1, 2 ** 32), 'maxrep': 3,
                       'features': {'marker-under-%d' % (on // 1000): 1, 'marker-default-after-modified': 1}, 'shared': comp})
+    # marker operators inside LOOP bodies (compiled once, run 0..n times): (a) a body run twice whose first marker stands under
+    # another operator state than its last; (b) a marker under a modifier inside a delayed replication that runs 0 times,
+    # followed after the loop by a marker under the same modifier
+    for k in range(ctx.n(12, 100)):
+        op = rng.choice([223, 224, 225, 232])
+        on = rng.choice([201129, 201130, 201132, 202129, 202130, 207001])
+        off = on // 1000 * 1000
+        sig = [8023] if op == 224 else [8024] if op == 225 else []
+        mk = op * 1000 + 255
+        if k % 2 == 0:
+            nz = 4
+            body = [104002, mk, on, mk, off]
+            forced = '31031=' + '.'.join(['0'] * nz)
+        else:
+            f = rng.choice([0, 0, 1, 2])
+            nz = f + 1
+            body = [103000, 31001, on, mk, off, on, mk, off]
+            forced = '31001=%d;31031=%s' % (f, '.'.join(['0'] * nz))
+        els = [rng.choice([12001, 10004, 11001, 7001, 13003]) for _ in range(nz)]
+        ids = els + [op * 1000, 236000, 101000 + nz, 31031] + sig + body
+        comp = rng.random() < 0.3
+        cases.append({'ids': ids, 'version': 33, 'edition': 4, 'nsub': rng.choice([1, 2]), 'compressed': comp, 'forced': forced,
+                      'seed': rng.randrange(1, 2 ** 32), 'maxrep': 3,
+                      'features': {'marker-under-%d' % (on // 1000): 1, 'marker-states-inside-loop-body': 1}, 'shared': comp})
     for c in cases:
         if c.get('shared') is None:
             c['shared'] = c['compressed']
